@@ -228,7 +228,33 @@ var (
 	tgwNames  = []string{"tgw", "tgw2"}
 	igwNames  = []string{"igw"}
 	manualIPs = []string{"1.1.1.1", "2.2.2.2", "3.3.3.3"}
+	extName   = "ext" // the name that service-defaults entries turn into a destination
 )
+
+// universe: the tables above.  The default one is all lower case (the Coq model compares names
+// exactly).  caseUniverse is used by the oracle-only stream: node names, service names and ids with
+// upper-case letters, digits, dots and dashes, and two node names that differ only in case (the store
+// keys nodes, service ids and service names by their lower-cased form but stores them as given).
+type universe struct {
+	nodes, svcIDs, plain, tgw, igw []string
+	ext                          string
+}
+
+var (
+	lowerUniverse = universe{nodeNames, svcIDs, plainName, tgwNames, igwNames, extName}
+	caseUniverse  = universe{
+		nodes:  []string{"Web-Host-1", "DB.Node-2", "web-host-1"},
+		svcIDs: []string{"Svc-1", "s.2", "S3"},
+		plain:  []string{"Web", "db.v1", "Api-2"},
+		tgw:    []string{"TGW-1", "tgw2"},
+		igw:    []string{"IGW.a"},
+		ext:    "Ext-1",
+	}
+)
+
+func setUniverse(u universe) {
+	nodeNames, svcIDs, plainName, tgwNames, igwNames, extName = u.nodes, u.svcIDs, u.plain, u.tgw, u.igw, u.ext
+}
 
 const vipBase = 240 << 24 // 240.0.0.0
 
@@ -810,7 +836,7 @@ func recomputeTopology(d *Dump, gws map[string]string) map[string]string {
 		}
 		for _, u := range s.Ups {
 			k := u + "|" + s.Dest
-			refs[k] = append(refs[k], s.Node+"/"+s.ID)
+			refs[k] = append(refs[k], strings.ToLower(s.Node+"/"+s.ID))
 		}
 	}
 	want := map[string]string{}
@@ -880,30 +906,31 @@ func (im *impl) oracle(step int, d *Dump) []OracleFail {
 	st := im.store()
 
 	// ---- orphans (also covers the cascades: a removed parent leaves no row behind)
+	lc := strings.ToLower // the store keys nodes and service ids by their lower-cased form
 	nodes := map[string]bool{}
 	for _, n := range d.Nodes {
-		nodes[n.Name] = true
+		nodes[lc(n.Name)] = true
 	}
 	svcs := map[string]*SvcRow{}
 	for i := range d.Services {
 		s := &d.Services[i]
-		svcs[s.Node+"/"+s.ID] = s
-		if !nodes[s.Node] {
+		svcs[lc(s.Node+"/"+s.ID)] = s
+		if !nodes[lc(s.Node)] {
 			fail("orphan", "service-without-node", s.Node+"/"+s.ID)
 		}
 	}
 	for _, c := range d.Checks {
-		if !nodes[c.Node] {
+		if !nodes[lc(c.Node)] {
 			fail("orphan", "check-without-node", c.Node+"/"+c.ID)
 		}
 		if c.Svc != "" {
-			if s := svcs[c.Node+"/"+c.Svc]; s == nil {
+			if s := svcs[lc(c.Node+"/"+c.Svc)]; s == nil {
 				fail("orphan", "check-without-service", c.Node+"/"+c.ID+" -> "+c.Svc)
 			}
 		}
 	}
 	for _, n := range d.Coords {
-		if !nodes[n] {
+		if !nodes[lc(n)] {
 			fail("orphan", "coordinate-without-node", n)
 		}
 	}
@@ -1035,7 +1062,14 @@ func (im *impl) oracle(step int, d *Dump) []OracleFail {
 	wantT := recomputeTopology(d, gotG)
 	gotT := map[string]string{}
 	for _, t := range d.Topo {
-		gotT[t.Up+"|"+t.Down] = strings.Join(t.Refs, ",")
+		// instance identity is case-insensitive in the store: compare WHICH instances reference a pair, not how
+		// their node names were spelled
+		lr := []string{}
+		for _, r := range t.Refs {
+			lr = append(lr, strings.ToLower(r))
+		}
+		sort.Strings(lr)
+		gotT[t.Up+"|"+t.Down] = strings.Join(uniq(lr), ",")
 	}
 	if sub, what := mapDiff(wantT, gotT); sub != "" {
 		fail("topology", sub, what)
@@ -1217,15 +1251,15 @@ func (t *tracker) observe(before, after *Dump) {
 	bs := map[string]*SvcRow{}
 	for i := range before.Services {
 		r := &before.Services[i]
-		bs[r.Node+"/"+r.ID] = r
+		bs[strings.ToLower(r.Node+"/"+r.ID)] = r
 	}
 	kindOf := map[string]string{}
 	pairs := map[string]int{}
 	as := map[string]*SvcRow{}
 	for i := range after.Services {
 		r := &after.Services[i]
-		as[r.Node+"/"+r.ID] = r
-		if o := bs[r.Node+"/"+r.ID]; o != nil {
+		as[strings.ToLower(r.Node+"/"+r.ID)] = r
+		if o := bs[strings.ToLower(r.Node+"/"+r.ID)]; o != nil {
 			if o.Name != r.Name || o.Kind != r.Kind || o.Native != r.Native || o.Dest != r.Dest {
 				t.flags["instance-redefined"] = true
 				if o.Name == "consul" || r.Name == "consul" {
@@ -1322,10 +1356,12 @@ func (t *tracker) observeCmd(c *Cmd, before *Dump) {
 	}
 	cur := map[string]def{}
 	ups := map[string][]string{}
+	spelling := map[string]string{}
 	for i := range before.Services {
 		r := &before.Services[i]
-		cur[r.Node+"/"+r.ID] = def{r.Name, r.Kind, r.Dest, r.Native}
-		ups[r.Node+"/"+r.ID] = r.Ups
+		spelling[strings.ToLower(r.Node+"/"+r.ID)] = r.Node
+		cur[strings.ToLower(r.Node+"/"+r.ID)] = def{r.Name, r.Kind, r.Dest, r.Native}
+		ups[strings.ToLower(r.Node+"/"+r.ID)] = r.Ups
 	}
 	pairsTwice := func() {
 		pairs := map[string]int{}
@@ -1342,22 +1378,28 @@ func (t *tracker) observeCmd(c *Cmd, before *Dump) {
 		}
 	}
 	write := func(node string, sp *SvcSpec) {
+		// an instance written under another spelling of its node name (the store finds the same row)
+		if o, ok := spelling[strings.ToLower(node+"/"+sp.ID)]; ok && o != node {
+			t.flags["node-respelled"] = true
+		}
+		spelling[strings.ToLower(node+"/"+sp.ID)] = node
+		node = strings.ToLower(node) // instance identity is case-insensitive in the store
 		defer pairsTwice()
-		if o, ok := ups[node+"/"+sp.ID]; ok && strings.Join(o, ",") != strings.Join(sp.Ups, ",") {
+		if o, ok := ups[node+"/"+strings.ToLower(sp.ID)]; ok && strings.Join(o, ",") != strings.Join(sp.Ups, ",") {
 			t.flags["upstreams-changed"] = true
 		}
-		ups[node+"/"+sp.ID] = sp.Ups
+		ups[node+"/"+strings.ToLower(sp.ID)] = sp.Ups
 		d := def{sp.Name, sp.Kind, "", sp.Native}
 		if sp.Kind == "connect-proxy" {
 			d.dest = sp.Dest
 		}
-		if o, ok := cur[node+"/"+sp.ID]; ok && o != d {
+		if o, ok := cur[node+"/"+strings.ToLower(sp.ID)]; ok && o != d {
 			t.flags["instance-redefined"] = true
 			if o.name == "consul" || d.name == "consul" {
 				t.flags["consul-renamed"] = true
 			}
 		}
-		cur[node+"/"+sp.ID] = d
+		cur[node+"/"+strings.ToLower(sp.ID)] = d
 		for _, o := range cur {
 			if o.name == d.name && o.kind != d.kind {
 				t.flags["name-shared-across-kinds"] = true
@@ -1413,16 +1455,22 @@ func (t *tracker) cause(f *OracleFail) string {
 		if (t.flags["pair-declared-twice"] && t.flags["upstreams-changed"]) || t.flags["instance-redefined"] || t.flags["wildcard-gateway"] {
 			return "upstream-dropped-or-instance-redefined-or-wildcard-gateway"
 		}
+		// the same instance written under two spellings of its node name (mixed-case stream only)
+		if t.flags["node-respelled"] {
+			return "node-respelled"
+		}
 	case "gateway-services":
 		if strings.HasPrefix(f.Sub, "api-") {
 			return ""
 		}
-		// still excluded: an INGRESS gateway with a wildcard, or any wildcard next to a non-typical instance named
-		// like a proxy destination (both: order of writes), an instance redefined
+		// still excluded: an INGRESS gateway with a wildcard, or any wildcard next to a non-typical instance that
+		// shares its name with a proxy destination or with typical instances (all: the registration / cleanup
+		// path and the config-write path disagree on which names a wildcard covers), an instance redefined
 		// while some gateway has a wildcard (the old name's association stays), a destination dropped by
 		// an update.  A service listed next to a wildcard, or linked by two gateways, is fine by itself
 		// (since /repo a882280, 948377c).
-		if t.flags["ingress-wildcard-gateway"] || (t.flags["wildcard-gateway"] && t.flags["non-typical-instance-named-like-destination"]) {
+		if t.flags["ingress-wildcard-gateway"] ||
+			(t.flags["wildcard-gateway"] && (t.flags["non-typical-instance-named-like-destination"] || t.flags["name-shared-across-kinds"])) {
 			return "wildcard-order"
 		}
 		if t.flags["wildcard-gateway"] && t.flags["instance-redefined"] {
@@ -1664,7 +1712,7 @@ func (g *gen) conf() *Conf {
 	}
 	switch k {
 	case 0:
-		c := &Conf{Kind: structs.TerminatingGateway, Name: g.pick(tgwNames), Services: g.subset([]string{"web", "db", "ext"}, 3)}
+		c := &Conf{Kind: structs.TerminatingGateway, Name: g.pick(tgwNames), Services: g.subset([]string{plainName[0], plainName[1], extName}, 3)}
 		if g.rng.Intn(wildP) == 0 {
 			c.Services = append(c.Services, "*")
 		}
@@ -1672,7 +1720,7 @@ func (g *gen) conf() *Conf {
 	case 1:
 		c := &Conf{Kind: structs.IngressGateway, Name: g.pick(igwNames)}
 		for p := 0; p < 1+g.rng.Intn(2); p++ {
-			l := Listener{Port: 8080 + p, Services: g.subset([]string{"web", "api"}, 2)}
+			l := Listener{Port: 8080 + p, Services: g.subset([]string{plainName[0], plainName[2]}, 2)}
 			if g.rng.Intn(wildP) == 0 {
 				l.Services = []string{"*"}
 			}
@@ -1685,7 +1733,7 @@ func (g *gen) conf() *Conf {
 	case 2:
 		// a destination is an external service: never a name that is also registered in the catalog
 		if g.rng.Intn(2) == 0 {
-			return &Conf{Kind: structs.ServiceDefaults, Name: "ext", Dest: g.rng.Intn(4) > 0}
+			return &Conf{Kind: structs.ServiceDefaults, Name: extName, Dest: g.rng.Intn(4) > 0}
 		}
 		return &Conf{Kind: structs.ServiceDefaults, Name: g.pick(plainName)}
 	default:
@@ -1918,6 +1966,23 @@ func corpus() map[string][]Cmd {
 			reg(4, "n1", plain("s1", "web")),
 			{Kind: "deregister", Idx: 5, Node: "n1", SvcID: "s1"},
 		},
+		// a proxy with upstreams on a node whose name has upper-case letters, deregistered by service and,
+		// after a second registration, by node (the node named in lower case); the tables must be clean
+		"topology-mixed-case-node": {
+			reg(3, "Web-Host-1", proxy("Svc-1", "Web-proxy", "Web", "db.v1", "Api-2")),
+			reg(4, "DB.Node-2", proxy("Svc-1", "Web-proxy", "Web", "db.v1")),
+			{Kind: "deregister", Idx: 5, Node: "Web-Host-1", SvcID: "Svc-1"},
+			reg(6, "Web-Host-1", proxy("Svc-1", "Web-proxy", "Web", "db.v1")),
+			{Kind: "deregister", Idx: 7, Node: "DB.Node-2", SvcID: "Svc-1"},
+			{Kind: "deregister", Idx: 8, Node: "web-host-1"},
+		},
+		// still failing: the same instance written under two spellings of its node name: the pair gets a
+		// reference per spelling and only the row's spelling is removed on deregistration
+		"topology-mixed-case-node-respelled": {
+			reg(3, "Web-Host-1", proxy("Svc-1", "Web-proxy", "Web", "db.v1")),
+			reg(4, "web-host-1", &SvcSpec{ID: "Svc-1", Name: "Web-proxy", Kind: "connect-proxy", Dest: "Web", Port: 81, Ups: []string{"db.v1"}}),
+			{Kind: "deregister", Idx: 5, Node: "Web-Host-1", SvcID: "Svc-1"},
+		},
 		// regression (948377c): two gateways list ext, then ext becomes a destination
 		"gateway-service-in-two-rows": {
 			{Kind: "conf_set", Idx: 3, Conf: &Conf{Kind: structs.TerminatingGateway, Name: "tgw", Services: []string{"ext"}}},
@@ -2037,6 +2102,19 @@ func main() {
 		if err := json.Unmarshal(raw, &r); err != nil {
 			panic(err)
 		}
+		// a replay of the mixed-case stream: the query-API clauses iterate over that universe's names
+		for _, c := range r.Cmds {
+			names := c.Node + c.SvcID + c.Service
+			if c.Svc != nil {
+				names += c.Svc.ID + c.Svc.Name
+			}
+			if c.Conf != nil {
+				names += c.Conf.Name
+			}
+			if names != strings.ToLower(names) {
+				setUniverse(caseUniverse)
+			}
+		}
 		h := runScript(0, "replay", r.Cmds, nil, len(r.Cmds))
 		j, _ := json.MarshalIndent(&h, "", " ")
 		w.Write(j)
@@ -2059,8 +2137,13 @@ func main() {
 		}
 		sort.Strings(names)
 		for i, k := range names {
+			mixedCase := strings.Contains(k, "mixed-case")
+			if mixedCase {
+				setUniverse(caseUniverse) // the query-API clauses of the oracle iterate over the universe's names
+			}
 			h := runScript(-1-i, "corpus:"+k, cp[k], nil, len(cp[k]))
-			h.Model = !panicked(&h)
+			setUniverse(lowerUniverse)
+			h.Model = !panicked(&h) && !mixedCase
 			j, _ := json.Marshal(&h)
 			w.Write(j)
 			w.WriteByte('\n')
@@ -2087,4 +2170,30 @@ func main() {
 		w.Write(j)
 		w.WriteByte('\n')
 	}
+
+	// ---- the oracle-only stream: the same mixes over the mixed-case universe (outside the Coq model,
+	// which compares names exactly): every oracle clause after every command, shrinking, no model comparison
+	nc := n / 3
+	crng := rand.New(rand.NewSource(*seed + 7919))
+	setUniverse(caseUniverse)
+	for i := 0; i < nc; i++ {
+		mix := mixes[i%len(mixes)]
+		ln := 3 + crng.Intn(28)
+		g := &gen{rng: rand.New(rand.NewSource(crng.Int63())), mix: mix}
+		pre := preamble(crng.Intn(8) > 0)
+		h := runScript(n+i, mix, pre, g, len(pre)+ln)
+		h.Mix = "case:" + mix
+		h.Model = false
+		if len(h.Oracle) > 0 && !*noShrink {
+			sig := "case/" + sigOf(h.Oracle[0])
+			if shrunkSigs[sig] < 3 {
+				shrunkSigs[sig]++
+				h.Shrunk = shrink(h.Cmds, sigOf(h.Oracle[0]))
+			}
+		}
+		j, _ := json.Marshal(&h)
+		w.Write(j)
+		w.WriteByte('\n')
+	}
+	setUniverse(lowerUniverse)
 }
